@@ -89,6 +89,11 @@ def validate(steps):
             if depth == 0:
                 return False
             depth -= 1
+        elif op == "DROP":
+            if st["c"] not in defined:
+                return False
+            defined.discard(st["c"])
+            decl.discard(st["c"])
         elif op == "SET_INIT":
             if st["c"] not in defined:
                 return False
